@@ -62,7 +62,23 @@ func verifSameBytes(a, b []byte) bool {
 // state or the complete new message.
 func verifC05Append() {
 	dir := verifQueueDir5()
-	appended := verifRange("appended", 0, 200000)
+	// the appended sequence: a case split over values around the index-page boundaries (an index
+	// page holds 262144 entries), or - case 0 - any value inside the first index page
+	var appended int64
+	switch verifChoose("appendedCase", 6) {
+	case 0:
+		appended = verifRange("appended", 0, 200000)
+	case 1:
+		appended = indexItemsPerPage - 2
+	case 2:
+		appended = indexItemsPerPage - 1 // the index page is exactly full
+	case 3:
+		appended = indexItemsPerPage
+	case 4:
+		appended = 2*indexItemsPerPage - 1
+	default:
+		appended = 0
+	}
 	pageID := int64(verifChoose("dataPage", 2)) * 2
 	wlen := int64(verifChoose("witnessLen", 3))
 	offset := verifRange("offset", 0, dataPageSize)
